@@ -196,6 +196,41 @@ pub fn run_c17(chk: &Check, tier: Tier) {
     #[cfg(feature = "polling")]
     triples::<PollingParameterNumberMessageScanner>(chk, 2);
     chk.sample(json!({"state": "polling scanner, timeout 2 ms, data entry MSB pending for 1 ms on channel 9", "check": "copy.reset(); copy == PollingParameterNumberMessageScanner::new(2 ms)"}));
+    // thorough tier: 2^32 resets in a row (a 32-bit generation counter wraps exactly there), from a
+    // state with progress on channels 0 and 15; afterwards the scanner must == a new one and behave
+    // like one for all continuations of three feeds (with polls)
+    fn huge_storm<S: Scanner>(chk: &Check, timeout: u64, prefix: &[(u8, u8)], ctrls: &[u8]) {
+        use std::hint::black_box;
+        let t0 = std::time::Instant::now();
+        set_clock(0);
+        let mut sc = S::make(timeout);
+        for ch in [0u8, 15] {
+            for &(c, v) in prefix {
+                let _ = sc.feed_msg(&cc(ch, c, v));
+            }
+        }
+        let n: u64 = 1 << 32;
+        for _ in 0..n {
+            black_box(&mut sc).reset_all();
+        }
+        let fresh = S::make(timeout);
+        if sc != fresh {
+            chk.violate(Violation::new("reset-equals-new", format!("C17/{}/reset-equals-new/after-2^32-resets", S::NAME), format!("progress {:?} on channels 0 and 15, then 2^32 resets: the scanner is not == a new one: {:?}", prefix, sc)));
+        }
+        for ch in [0u8, 15] {
+            if let Some(d) = post_reset_differential(&sc, &fresh, ch, ctrls, 3, S::POLLS) {
+                chk.violate(Violation::new("reset-behaves-like-new", format!("C17/{}/reset-behaves-like-new/after-2^32-resets", S::NAME), format!("progress {:?} on channels 0 and 15, then 2^32 resets; channel {}: {}", prefix, ch, d)));
+            }
+        }
+        chk.add_eval(n);
+        chk.push("reset_storm_2_pow_32", json!({"scanner": S::NAME, "resets": n, "wall_s": t0.elapsed().as_secs_f64()}));
+    }
+    if tier.thorough() {
+        huge_storm::<ControlChange14BitMessageScanner>(chk, 0, &[(6, 5)], &[38, 6, 7, 39]);
+        huge_storm::<ParameterNumberMessageScanner>(chk, 0, &[(99, 1), (98, 2), (38, 3)], &[6, 38, 96, 98]);
+        #[cfg(feature = "polling")]
+        huge_storm::<PollingParameterNumberMessageScanner>(chk, 0, &[(99, 1), (98, 2), (6, 3)], &[6, 38, 96, 98]);
+    }
 }
 
 /// Scanner part of C03: at every state of the scanner fixpoints every alphabet message is fed in
